@@ -52,6 +52,9 @@ pub struct Cfg {
     pub ignore_naks: bool,
     /// 0 = full alphabet (all single deviations + pairs), 1 = single deviations only
     pub alpha: u8,
+    /// device back-pressure events ("block tx" = `Device::transmit()` returns None until
+    /// "unblock tx") are part of the alphabet
+    pub bp: bool,
 }
 
 fn parse_cfg(s: &str) -> Cfg {
@@ -61,7 +64,7 @@ fn parse_cfg(s: &str) -> Cfg {
         r[..r.find(')').unwrap_or(0)].parse::<u32>().unwrap_or(30)
     });
     let alpha = s.find("alpha: ").and_then(|i| s[i + 7..].chars().next()).and_then(|c| c.to_digit(10)).unwrap_or(0) as u8;
-    Cfg { retry_short: has("retry_short: true"), max_lease, ignore_naks: has("ignore_naks: true"), alpha }
+    Cfg { retry_short: has("retry_short: true"), max_lease, ignore_naks: has("ignore_naks: true"), alpha, bp: has("bp: true") }
 }
 
 fn retry_config(short: bool) -> dhcpv4::RetryConfig {
@@ -329,6 +332,10 @@ pub enum Ev {
     /// silent DHCP server: follow poll_at until the client gives the address up
     /// (bool: ARP requests for the server are answered)
     RunSilent(bool),
+    /// back-pressure: from now on `Device::transmit()` refuses (returns None); then poll
+    BlockTx,
+    /// lift the back-pressure; then poll
+    UnblockTx,
 }
 impl std::fmt::Debug for Ev {
     fn fmt(&self, f: &mut std::fmt::Formatter) -> std::fmt::Result {
@@ -341,6 +348,8 @@ impl std::fmt::Debug for Ev {
             Ev::ToExpiry(d) => write!(f, "advance-to-expiry{:+}us", d),
             Ev::ToCappedExpiry(d) => write!(f, "advance-to-capped-expiry{:+}us", d),
             Ev::RunSilent(arp) => write!(f, "run-silent-server(arp-answered={})", arp),
+            Ev::BlockTx => write!(f, "block-tx"),
+            Ev::UnblockTx => write!(f, "unblock-tx"),
         }
     }
 }
@@ -736,7 +745,10 @@ impl DhcpH {
                 t2only: t1.is_none() && t2.is_some(),
                 renew_seen: false,
                 rebind_seen: false,
-                faithful: true,
+                // LENIENT: under device back-pressure a renewal/rebind attempt leaves no frame,
+                // so order/attempt verdicts are only made for leases during which the device
+                // accepted frames all the time
+                faithful: !self.blocked(),
                 silent: true,
                 });
             if renewed {
@@ -753,6 +765,9 @@ impl DhcpH {
     /// `NeighborState::Waiting`) after a unicast renewal REQUEST could not leave?
     fn silenced(&self) -> bool {
         format!("{:?}", self.sockets).contains("Waiting")
+    }
+    fn blocked(&self) -> bool {
+        self.dev.tx_budget == Some(0)
     }
     fn cause(&self) -> &'static str {
         if self.silenced() {
@@ -863,6 +878,15 @@ impl DhcpH {
     /// One `Interface::poll` at `self.now` + drain of socket events + all per-poll oracles.
     fn poll_step(&mut self, ctx: &PollCtx, out: &mut Vec<Viol>) -> bool {
         let ts = Instant::from_micros(self.now);
+        if self.blocked() {
+            if let Some(l) = self.m.lease.as_mut() {
+                l.faithful = false;
+            }
+            // LENIENT: "keeps soliciting at bounded intervals" is only demanded while the device
+            // accepts frames; the back-off reference restarts when the back-pressure is lifted
+            self.m.unconf_ref = self.now;
+            self.m.nosol_pollats = 0;
+        }
         self.iface.poll(ts, &mut self.dev, &mut self.sockets);
         let frames = self.dev.take_tx();
         let mut solicited = false;
@@ -1013,6 +1037,7 @@ impl DhcpH {
                     }
                 }
             }
+            None if self.blocked() => {}
             None => match pa {
                 None => out.push(Viol::new("C18/solicit/poll-at-none", format!("unconfigured at {} and Interface::poll_at is None: the client stopped soliciting", tsec(self.now)))),
                 Some(p) if p > self.now && p > self.m.unconf_ref + self.backoff => out.push(Viol::new(
@@ -1159,8 +1184,14 @@ impl Harness for DhcpH {
                     }
                 }
             }
-            v.push((Ev::RunSilent(true), 1));
-            v.push((Ev::RunSilent(false), 1));
+            // (a silent run under back-pressure would only spin on a poll_at in the past)
+            if !self.blocked() {
+                v.push((Ev::RunSilent(true), 1));
+                v.push((Ev::RunSilent(false), 1));
+            }
+        }
+        if self.cfg.bp {
+            v.push((if self.blocked() { Ev::UnblockTx } else { Ev::BlockTx }, 1));
         }
         v
     }
@@ -1206,7 +1237,7 @@ impl Harness for DhcpH {
                     self.advance_to(p);
                 }
                 let sol = self.poll_step(&PollCtx::default(), out);
-                if was_unconf && self.m.reported.is_none() && !sol {
+                if was_unconf && self.m.reported.is_none() && !sol && !self.blocked() {
                     self.m.nosol_pollats += 1;
                     if self.m.nosol_pollats >= 3 {
                         out.push(Viol::new("C18/solicit/stuck", format!("unconfigured client polled 3 times in a row exactly at Interface::poll_at (now {}) without sending DISCOVER or REQUEST", tsec(self.now))));
@@ -1228,6 +1259,17 @@ impl Harness for DhcpH {
                 if let Some(e) = self.m.lease.as_ref().and_then(|l| l.e_capped) {
                     self.advance_to(e + d);
                 }
+                self.poll_step(&PollCtx::default(), out);
+            }
+            Ev::BlockTx => {
+                self.dev.tx_budget = Some(0);
+                self.say(|| "device: transmit() refuses from now on".to_string());
+                self.poll_step(&PollCtx::default(), out);
+            }
+            Ev::UnblockTx => {
+                self.dev.tx_budget = None;
+                self.say(|| "device: transmit() accepts again".to_string());
+                self.m.unconf_ref = self.now;
                 self.poll_step(&PollCtx::default(), out);
             }
             Ev::RunSilent(arp) => {
@@ -1326,7 +1368,8 @@ impl DhcpH {
         let rel = |t: i64| (t - self.now).max(-1);
         let _ = write!(
             out,
-            "|M earlier={} req={} req_is_latest={} req_is_earlier={} lt={} rep={:?} taint={} unconf_age={} nosol={} arp={:?}",
+            "|M blocked={} earlier={} req={} req_is_latest={} req_is_earlier={} lt={} rep={:?} taint={} unconf_age={} nosol={} arp={:?}",
+            self.blocked(),
             m.earlier_xid.is_some(),
             m.last_req_xid.is_some(),
             m.last_req_xid.is_some() && m.last_req_xid == m.latest_xid,
@@ -1395,30 +1438,36 @@ fn narrate_choices(cfg: &Cfg, choices: &[u16]) -> (Vec<String>, Vec<Viol>) {
 pub fn run(tier: Tier) -> i32 {
     let mut rep = Report::new("C18", tier);
     rep.assumptions.push("stimulus frames are built with smoltcp::wire emitters (trusted for building, not as oracle); what the client sends is read with an independent parser (RFC 826/951/2131 offsets)".into());
-    rep.assumptions.push("one dhcpv4::Socket on one Ethernet interface; the harness applies Configured/Deconfigured to the interface exactly like examples/dhcp_client.rs; the device never refuses transmit".into());
+    rep.assumptions.push("one dhcpv4::Socket on one Ethernet interface; the harness applies Configured/Deconfigured to the interface exactly like examples/dhcp_client.rs; device back-pressure (transmit() refusing every frame between a block-tx and an unblock-tx event) is an event dimension in the configurations marked bp: true, elsewhere the device never refuses".into());
     rep.assumptions.push("server messages deviate from a well-formed base message in ONE dimension (all values) or in the pair lease x T1/T2 (all values) / unicast x tiny lease; yiaddr values: 192.168.1.42, 255.255.255.255, 0.0.0.0, 224.0.0.1 (subnet-directed broadcast is read as 'unicast', lenient)".into());
-    rep.assumptions.push("lenient readings: expiry = arrival + lease OPTION (max_lease_duration only aims time events); ACK without lease option grants nothing checkable; renew-before-rebind only demanded when the ACK carried both or none of T1/T2; 'renew and rebind attempted before expiry' only for silent server, clock following poll_at, lease >= 600 s; an ARP request for the server counts as renewal attempt; back-off bound = max(discover_timeout, initial_request_timeout << ((retries-1)/2)) + 1 s + 1 ms".into());
+    rep.assumptions.push("lenient readings: expiry = arrival + lease OPTION (max_lease_duration only aims time events); ACK without lease option grants nothing checkable; renew-before-rebind only demanded when the ACK carried both or none of T1/T2; 'renew and rebind attempted before expiry' only for silent server, clock following poll_at, lease >= 600 s; an ARP request for the server counts as renewal attempt; order/attempt verdicts only for leases during which the device accepted frames all the time, solicitation bound only demanded while the device accepts frames (reference restarts at unblock-tx); back-off bound = max(discover_timeout, initial_request_timeout << ((retries-1)/2)) + 1 s + 1 ms".into());
     rep.assumptions.push("state merging: instants relative to now (all <= now equivalent), xid value / PRNG / IPv4 ident stripped (only relations between xids matter, kept in the model image)".into());
 
     // quick: d<=6 on the two extreme configurations, d<=5 on the others; thorough: the full
     // 2x2x2 configuration cube (d<=9, d<=8 with ignore_naks) plus the singles-only alphabet at d<=10
     let mut cfgs: Vec<(Cfg, usize)> = vec![];
     if tier == Tier::Quick {
-        cfgs.push((Cfg { retry_short: false, max_lease: None, ignore_naks: false, alpha: 0 }, 6));
-        cfgs.push((Cfg { retry_short: true, max_lease: Some(30), ignore_naks: false, alpha: 0 }, 6));
-        cfgs.push((Cfg { retry_short: false, max_lease: Some(30), ignore_naks: false, alpha: 0 }, 5));
-        cfgs.push((Cfg { retry_short: true, max_lease: None, ignore_naks: false, alpha: 0 }, 5));
-        cfgs.push((Cfg { retry_short: false, max_lease: None, ignore_naks: true, alpha: 0 }, 5));
+        cfgs.push((Cfg { retry_short: false, max_lease: None, ignore_naks: false, alpha: 0, bp: false }, 6));
+        cfgs.push((Cfg { retry_short: true, max_lease: Some(30), ignore_naks: false, alpha: 0, bp: false }, 6));
+        cfgs.push((Cfg { retry_short: false, max_lease: Some(30), ignore_naks: false, alpha: 0, bp: false }, 5));
+        cfgs.push((Cfg { retry_short: true, max_lease: None, ignore_naks: false, alpha: 0, bp: false }, 5));
+        cfgs.push((Cfg { retry_short: false, max_lease: None, ignore_naks: true, alpha: 0, bp: false }, 5));
+        cfgs.push((Cfg { retry_short: false, max_lease: None, ignore_naks: false, alpha: 0, bp: true }, 5));
+        cfgs.push((Cfg { retry_short: true, max_lease: Some(30), ignore_naks: false, alpha: 1, bp: true }, 5));
     } else {
         for ignore_naks in [false, true] {
             for retry_short in [false, true] {
                 for max_lease in [None, Some(30)] {
-                    cfgs.push((Cfg { retry_short, max_lease, ignore_naks, alpha: 0 }, if ignore_naks { 8 } else { 9 }));
+                    cfgs.push((Cfg { retry_short, max_lease, ignore_naks, alpha: 0, bp: false }, if ignore_naks { 8 } else { 9 }));
                 }
             }
         }
-        cfgs.push((Cfg { retry_short: false, max_lease: None, ignore_naks: false, alpha: 1 }, 10));
-        cfgs.push((Cfg { retry_short: true, max_lease: Some(30), ignore_naks: false, alpha: 1 }, 10));
+        cfgs.push((Cfg { retry_short: false, max_lease: None, ignore_naks: false, alpha: 1, bp: false }, 10));
+        cfgs.push((Cfg { retry_short: true, max_lease: Some(30), ignore_naks: false, alpha: 1, bp: false }, 10));
+        // device back-pressure as an extra event dimension
+        cfgs.push((Cfg { retry_short: false, max_lease: None, ignore_naks: false, alpha: 0, bp: true }, 8));
+        cfgs.push((Cfg { retry_short: true, max_lease: Some(30), ignore_naks: false, alpha: 0, bp: true }, 8));
+        cfgs.push((Cfg { retry_short: false, max_lease: None, ignore_naks: true, alpha: 1, bp: true }, 9));
     }
     let lim = Limits::default();
     let mut per_cfg = vec![];
@@ -1450,22 +1499,22 @@ pub fn run(tier: Tier) -> i32 {
             Err(e) => rep.machinery_errors.push(e),
         }
         let h = DhcpH::new(cfg);
-        alpha_sizes.insert(format!("alpha{}", cfg.alpha), json!({
+        alpha_sizes.insert(format!("alpha{}{}", cfg.alpha, if cfg.bp { "+bp" } else { "" }), json!({
             "server_messages": alphabet(cfg.alpha, true).len(), "bursts": bursts().len(),
             "max_events_enabled_initially": h.enabled().len()}));
     }
     *LABELS.lock().unwrap() = None;
     rep.cov("per_configuration", json!(per_cfg));
     rep.cov("alphabet", json!(alpha_sizes));
-    rep.cov("rule", json!("BFS over choice histories replayed on a fresh real Interface+dhcpv4::Socket; from every distinct state every enabled event: each server message of the alphabet (built from the latest client message on the wire; types OFFER/ACK/NAK/DISCOVER/INFORM/REQUEST; xid latest/earlier/foreign; chaddr own/foreign; server-id present/absent; mask /24, 255.0.255.0, absent; yiaddr unicast/broadcast/0/multicast; lease absent,0,1,2,60,600,2^32-1; T1/T2 absent,0/0,equal,inverted,>lease,T1 only,T2 only,valid,tight; router/DNS present/absent; broadcast/unicast delivery), 4 two-frame bursts in ONE poll, ARP reply, clock to poll_at, +1 s, expiry-1us/expiry/expiry+1us (statement expiry and max_lease-capped expiry), silent-server run following poll_at to the end of the lease (ARP answered / not). One Interface::poll + drain of Socket::poll() per event; all oracles after every poll."));
+    rep.cov("rule", json!("BFS over choice histories replayed on a fresh real Interface+dhcpv4::Socket; from every distinct state every enabled event: each server message of the alphabet (built from the latest client message on the wire; types OFFER/ACK/NAK/DISCOVER/INFORM/REQUEST; xid latest/earlier/foreign; chaddr own/foreign; server-id present/absent; mask /24, 255.0.255.0, absent; yiaddr unicast/broadcast/0/multicast; lease absent,0,1,2,60,600,2^32-1; T1/T2 absent,0/0,equal,inverted,>lease,T1 only,T2 only,valid,tight; router/DNS present/absent; broadcast/unicast delivery), 4 two-frame bursts in ONE poll, ARP reply, clock to poll_at, +1 s, expiry-1us/expiry/expiry+1us (statement expiry and max_lease-capped expiry), silent-server run following poll_at to the end of the lease (ARP answered / not), block-tx / unblock-tx (bp configurations). One Interface::poll + drain of Socket::poll() per event; all oracles after every poll."));
 
     rep.cov("caps", json!(format!("the silent-server macro event stops after {} polls (enough for a complete 600 s lease with the ARP request repeated every second); runs that hit the cap are counted as run_silent_capped (leases of 2^32-1 s) and make no attempt verdict; no other cap", RUN_CAP)));
     // narrated samples: a full lease life cycle under each retry configuration
     for (cfg, script) in [
-        (Cfg { retry_short: false, max_lease: None, ignore_naks: false, alpha: 0 }, vec!["deliver Offer{}", "deliver Ack{lease=1}", "advance-to-poll_at", "advance-to-expiry+0us", "advance-to-poll_at"]),
-        (Cfg { retry_short: false, max_lease: None, ignore_naks: false, alpha: 0 }, vec!["deliver Offer{}", "deliver Ack{}", "run-silent-server(arp-answered=true)"]),
-        (Cfg { retry_short: true, max_lease: Some(30), ignore_naks: false, alpha: 0 }, vec!["deliver Offer{}", "deliver Ack{}", "run-silent-server(arp-answered=false)", "advance-to-poll_at"]),
-        (Cfg { retry_short: false, max_lease: None, ignore_naks: false, alpha: 0 }, vec!["advance-to-poll_at", "deliver Offer{xid=Earlier}", "deliver Offer{}", "deliver Ack{lease=60 T1/T2=Valid(Some(15),Some(30))}", "advance-to-poll_at", "arp-reply", "deliver Ack{lease=2}", "advance-to-expiry-1us", "advance-to-expiry+0us"]),
+        (Cfg { retry_short: false, max_lease: None, ignore_naks: false, alpha: 0, bp: false }, vec!["deliver Offer{}", "deliver Ack{lease=1}", "advance-to-poll_at", "advance-to-expiry+0us", "advance-to-poll_at"]),
+        (Cfg { retry_short: false, max_lease: None, ignore_naks: false, alpha: 0, bp: false }, vec!["deliver Offer{}", "deliver Ack{}", "run-silent-server(arp-answered=true)"]),
+        (Cfg { retry_short: true, max_lease: Some(30), ignore_naks: false, alpha: 0, bp: false }, vec!["deliver Offer{}", "deliver Ack{}", "run-silent-server(arp-answered=false)", "advance-to-poll_at"]),
+        (Cfg { retry_short: false, max_lease: None, ignore_naks: false, alpha: 0, bp: false }, vec!["advance-to-poll_at", "deliver Offer{xid=Earlier}", "deliver Offer{}", "deliver Ack{lease=60 T1/T2=Valid(Some(15),Some(30))}", "advance-to-poll_at", "arp-reply", "deliver Ack{lease=2}", "advance-to-expiry-1us", "advance-to-expiry+0us"]),
     ] {
         match narrate_script(&cfg, &script) {
             Ok((log, v)) => rep.samples.push(json!({"config": format!("{:?}", cfg), "script": script, "wire_and_event_log": log,
